@@ -1,4 +1,4 @@
-CONSTANTS MaxCalls = 2  MaxCont = 1  MaxTrail = 0  DoneInit = "count"  HoldItems = TRUE
+CONSTANTS MaxCalls = 2  MaxCont = 1  MaxTrail = 0  WithGenErr = TRUE  DoneInit = "count"  HoldItems = TRUE
 SPECIFICATION Spec
 INVARIANT NoLiveBorrowClobbered
 CHECK_DEADLOCK FALSE
